@@ -70,6 +70,10 @@ def Obj(cls, **fields):
     return Shape('obj', cls=cls, fields=fields)
 
 
+def DictOf(**fields):
+    return Shape('dict', fields=fields)
+
+
 def Const(v):
     return Shape('const', value=v)
 
@@ -205,3 +209,37 @@ def hash256(b):
 
 def hash160(b):
     return ripemd160(sha256(b))
+
+
+# ---- streams (io.BytesIO) in contracts -----------------------------------------
+def sdata(f):
+    """whole buffer of a BytesIO"""
+    return f.getvalue()
+
+
+def spos(f):
+    """current position of a BytesIO"""
+    return f.tell()
+
+
+def rest(f):
+    """unread bytes of a BytesIO"""
+    return f.getvalue()[f.tell():]
+
+
+def at_end(f):
+    return f.tell() == len(f.getvalue())
+
+
+def clsof(x):
+    return x.__class__
+
+
+def ghost(*a, **k): pass
+def canary(*a, **k): pass
+def option(*a, **k): pass
+def autosplit(*a, **k): pass
+def loopvar(*a, **k): pass
+def hint(*a, **k): pass
+def unroll(*a, **k): pass
+def cases(*a, **k): pass
